@@ -480,7 +480,6 @@ func BuildCte(query *Query, expr *sqlparser.With) error {
 			}
 			// memoised in the scope that declares the CTE (a body with its
 			// own WITH works on a copy of it)
-			scope[name] = rs
 			evaluated, rows = true, rs
 			return rs, nil
 		})
